@@ -1586,6 +1586,22 @@ class Analysis:
                 out = dict(st)
                 out[key] = nv
                 return out
+        # `(x >> k) == 0` / `!= 0` with a constant k and a non-negative x:  x < 2^k  /  x >= 2^k
+        if a is not None and b is not None and op in ("==", "!=") and ex.const(f, b) == 0:
+            ja0 = ex.skip(f, a)
+            ea0 = f.exprs[ja0]
+            if ea0["k"] == "bin" and ea0["op"] == ">>":
+                kk = ex.const(f, ea0["c"][1])
+                xk = self._refinable(ea0["c"][0])
+                if kk is not None and 0 < kk < 63 and xk is not None:
+                    xv = self.eval(st, ea0["c"][0])
+                    if xv[0] is not None and xv[0] >= 0:
+                        nv = meet(xv, (None, (1 << kk) - 1)) if op == "==" else meet(xv, (1 << kk, None))
+                        if is_empty(nv):
+                            return None
+                        out = dict(st)
+                        out[xk] = nv
+                        return out
         # two cursors into the same array: the comparison is about their offsets
         if a is not None and b is not None:
             ca, cb_ = self._cursor_ref(a, st), self._cursor_ref(b, st)
